@@ -174,6 +174,7 @@ SysClause(r, c) ==
   CASE c = "C09.fresh" -> r.status = r.fresh_status /\ r.sig = r.fresh_sig
     [] c = "C09.create" ->
          IF r.version = 1 /\ r.align THEN Holds(r, "C15.list") /\ Holds(r, "C15.gap") /\ Holds(r, "C15.pieces")
+                                            /\ Holds(r, "C15.single")       \* (the three above are vacuous for a single file)
          ELSE IF r.version = 1 THEN Holds(r, "C01.list") /\ Holds(r, "C01.pieces")
          ELSE /\ Holds(r, "C02.tree") /\ Holds(r, "C02.root") /\ Holds(r, "C02.empty") /\ Holds(r, "C02.layers")
               /\ (r.version = 3 => (Holds(r, "C03.order") /\ Holds(r, "C03.pieces")))
